@@ -1235,6 +1235,63 @@ def check_merge_cursor(ck, f, inst):
                     return True
         return False
     seen = {}
+
+    def enclosing_loops(node_id):
+        out = []
+        q = view.parent.get(node_id)
+        while q is not None:
+            if q.get("k") in ("For", "While", "Do"):
+                out.append(q)
+            q = view.parent.get(q.get("i"))
+        return out
+
+    def init_sites(d):
+        """statement ids that (re)position variable d: its declaration with initialiser, plain assignments, for-init"""
+        out = []
+        if d in view.decl_stmt and view.locals[d].get("init") is not None:
+            out.append(view.decl_stmt[d])
+        out += [w["i"] for w in view.writes.get(d, []) if w.get("k") == "Assign" and w.get("op") == "="]
+        return out
+    # (re)initialisation: a cursor that skips entries up to a target taken from another traversal restarts with that traversal
+    for d, (nm, arr) in sorted(cursors.items(), key=lambda kv: kv[1][0]):
+        targets = set()
+        for w in view.writes.get(d, []):
+            if not pcmodel.is_step(w):
+                continue
+            q = view.parent.get(w.get("i"))
+            while q is not None and q.get("k") != "For":
+                q = view.parent.get(q.get("i"))
+            if q is None or q.get("inc") is None or w.get("i") not in {x.get("i") for x in walk(q["inc"])}:
+                continue
+            for c in conjuncts(q.get("c") or {}):
+                if c.get("k") == "Bin" and c.get("op") in ("<", "<=", ">", ">="):
+                    for x, y in ((c["lhs"], c["rhs"]), (c["rhs"], c["lhs"])):
+                        el = element(view, x)
+                        if el and el[0].startswith("_col_idx_") and strip(el[1]).get("d") == d:
+                            for z in walk(view.value(y)):
+                                el2 = element(view, z) if z.get("k") in ("Index", "OpCall") else None
+                                if el2 and el2[0].startswith("_col_idx_") and strip(el2[1]).get("k") == "Ref" and strip(el2[1]).get("d") != d:
+                                    targets.add((strip(el2[1])["d"], strip(el2[1])["n"]))
+        for td, tn in sorted(targets, key=lambda t: t[1]):
+            ci, ti = init_sites(d), init_sites(td)
+            key = "%s/%s: restarted with %s" % (inst, nm, tn)
+            if not ci or not ti:
+                ck.incomplete(rule, "%s: initialisation of %s / %s not found" % (key, nm, tn))
+                continue
+            bad = None
+            for t0 in ti:
+                tl = enclosing_loops(t0)
+                if not tl:
+                    continue
+                inner = tl[0]
+                for c0 in ci:
+                    if inner.get("i") not in {l.get("i") for l in enclosing_loops(c0)}:
+                        bad = (c0, inner)
+            ck.ob(rule, key, bad is None,
+                  "%s skips entries up to column %s[%s]; both are (re)positioned inside the same loop" % (nm, arr[1:].replace("col_idx", "cidx"), tn) if bad is None else
+                  "%s skips entries up to the column of %s, whose traversal restarts in every iteration of `%s`, but %s is positioned outside that loop (line %s): "
+                  "entries it has passed for an earlier traversal are never updated by a later one (patterns with triangles, ILU(p>0))" % (
+                      nm, tn, render(bad[1]), nm, view.byid[bad[0]].get("l")), f.file, view.byid[(bad[0] if bad else ci[0])].get("l"))
     for d, (nm, arr) in sorted(cursors.items(), key=lambda kv: kv[1][0]):
         for w in view.writes.get(d, []):
             if not pcmodel.is_step(w):
@@ -1578,7 +1635,7 @@ def run(tier):
     ck.rule("E8.refresh-covers", "ILU copy_data_csr / copy_data_bcsr (the fresh value write of E8.numeric-refresh) assigns every slot of the factor arrays on every path of the row loop: _data_l[j] and _data_u[j] for every j of the factor's row segment [row_ptr[i], row_ptr[i+1]) in both the 'found in A' and the 'not in A' branch, _data_d[i] unconditionally; breaks for fill level p >= 1 on the second init_numeric (stale fill-in)", 6)
     ck.rule("E6.ilu-factor-form", "in-place (I+L)(D+U) factorisation, scalar and blocked: every store has one of the forms L_ij <- L_ij * D_jj^-1 (right multiplication), X <- X - L_ij * U_jk (X in L, D, U; L left of U), D_ii <- D_ii^-1, as (non-commutative, for blocks) normal forms; breaks for every block matrix whose blocks do not commute", 10)
     ck.rule("E4.ilu-level-fold", "ILU(p) level of fill lev(i,k) = min_j lev(i,j) + lev(j,k) + 1: _insert folds a duplicate insertion with MIN on every path where the entry exists (neither keep-first nor overwrite) and stores (col, level) for a new entry; factorize_symbolic passes lev(L_ij) + lev(U_jk) + 1 of the two merged entries with the column of the same U entry, inserts iff level <= p, and starts the pattern of A at level 0; breaks for p >= 2 on patterns where an entry is reached through two paths of different level (pattern too small: LU does not match A on the level-p pattern)", 7)
-    ck.rule("E3.merge-cursor", "numeric ILU factorisation (scalar and blocked): every cursor into a sorted column-index row (k over U_j, pl over L_i, pu over U_i) advances either as the increment of a loop over / skipping entries, or in straight code only under a successful match col_idx[cursor] == wanted column; breaks for structurally unsymmetric patterns (U_j has an entry right of column i but none at i: that entry is skipped and its Schur update lost)", 12)
+    ck.rule("E3.merge-cursor", "numeric ILU factorisation (scalar and blocked): every cursor into a sorted column-index row (k over U_j, pl over L_i, pu over U_i) advances either as the increment of a loop over / skipping entries, or in straight code only under a successful match col_idx[cursor] == wanted column; breaks for structurally unsymmetric patterns (U_j has an entry right of column i but none at i: that entry is skipped and its Schur update lost); a cursor that skips up to a target taken from another traversal is (re)positioned inside the loop in which that traversal restarts (breaks for patterns with triangles / ILU(p>0))", 16)
     ck.rule("E8.partial-fill-reinit", "a vector member that apply() reads and that a function reached from init_numeric() fills only partially (a pointer into it is handed to a gather routine all of whose stores are control-dependent on a match test) is re-initialised over its whole extent (memset / std::fill / assign / full loop over size()) on every path before, in that function or in init_numeric before the call; breaks on every second init_numeric() on one object (Vanka local matrices: the zero blocks hold the previous inverse)", 4)
     ck.rule("E8.symbolic-structure-only", "init_symbolic() (transitively) does not read matrix values (val, extract_diag, apply)", 11)
     ck.rule("E5.operator-form", "apply() evaluated symbolically as a linear operator equals the documented one: Jacobi w D^-1 (omega once), Scale w, Diagonal diag, Matrix M, Polynomial start value M~^-1 def, recurrence x <- (I - M~^-1 A) x + M~^-1 def, _m iterations; breaks for omega != 1 / every input", 9)
